@@ -39,7 +39,7 @@ func (World) Assumptions(prop string) []string {
 }
 
 func (World) Rule(prop string) string {
-	base := "10-80 steps over 2-5 addresses, 1-3 code blobs and a small storage-key pool: save (balance+-, nonce++, owner, code set/shared/changed/cleared, code metadata, 0-3 storage writes/deletes), remove, snapshot (JournalLen), revert(i) nested/repeated, revert(0), commit, restart, read; maxTrieLevelInMemory 1-8, cache 1-64; "
+	base := "(thorough tier: a third of the runs have 80-300 steps) 10-80 steps over 2-5 addresses, 1-3 code blobs and a small storage-key pool: save (balance+-, nonce++, owner, code set/shared/changed/cleared, code metadata, 0-3 storage writes/deletes), remove, snapshot (JournalLen), revert(i) nested/repeated, revert(0), commit, restart, read; maxTrieLevelInMemory 1-8, cache 1-64; "
 	switch prop {
 	case "C06":
 		return base + "non-trivial = at least one revert to a snapshot that undid >=1 journaled change, compared in full; distinct = hash of full plan"
